@@ -1130,6 +1130,13 @@ impl<'a, 'ast> Visit<'ast> for Rewriter<'a> {
                                 for sc in self.guard_scopes.iter_mut() {
                                     sc.retain(|(n, _)| *n != id);
                                 }
+                                if !was_guard {
+                                    // dropping any other value by name: `drop_value__(x)` (a shim that consumes the value and does nothing else;
+                                    // `core::mem::drop` itself has no specification in the installed vstd). What the value's destructor does is
+                                    // what it would do at the end of its scope: outside the function's contract either way
+                                    let (fs, fe) = self.src.range(p.path.span());
+                                    self.edit(fs, fe, "drop_value__".to_string(), 0);
+                                }
                                 if was_guard {
                                     // R23: dropping a lock guard by name ends the critical section and does nothing else; the guards of the
                                     // lock shims are `&mut` borrows, and a generic `drop<T>(T)` would let the verifier assume the callee
